@@ -294,4 +294,4 @@ Example stream_example :
   decode_all bl (firstn 27 (encode ms true)) = (firstn 1 ms, Err) /\
   decode_all bl (firstn 19 (encode ms true)) = (firstn 1 ms, End) /\
   decode_all bl (encode ms true) = (ms, End).
-Proof. cbv. repeat split. Qed.
+Proof. vm_compute. repeat split. Qed.
